@@ -46,7 +46,7 @@ class C03(Check):
         "for malformed input other than bad indices / short input (invalid UTF-8, negative lengths) nothing is asserted",
     ]
     required_labels = ["multi-block", "neg-block", "index-mutation:u", "index-mutation:e", "prefixes", "skip-path", "s:recursive"]
-    quick = (700, 1)
+    quick = (1200, 1)
     thorough = (5000, 16)
 
     def __init__(self):
